@@ -39,9 +39,9 @@ RULE = ('random schemas (1-4 classes, 0-3 associations with 0-3 key attributes o
         'attributes, reflexive and phrased associations, several associations to one referred class over the same '
         'identifying attributes listed in different orders, short positional rows that leave trailing referential attributes unset, type names spelled in any letter case attribute by '
         'attribute, identifiers, classes inferred from INSERTs) populated from '
-        'a pool of <= 4 values per type; per population: ALL permutations of the statements when there are <= 7 '
+        'a pool of <= 4 values per type (every fifth population from a pool of values with colliding hash(): -1 / -2, 1 / 2**61); per population: ALL permutations of the statements when there are <= 7 '
         '(quick: <= 6, and <= 7 on a sample), 50 random permutations otherwise; random partitions into 1-4 input '
-        'calls / files / directory chain / wide directory (directory and file names with a leading dot, blanks and the glob characters [ ] * ?) / zip members / one file through the bridgepoint loader, each part '
+        'calls / files / directory chain / wide directory (directory and file names with a leading dot, blanks and the glob characters [ ] * ?; sometimes two trees with equally named files) / members of one zip archive or of two archives with equally named members / one file through the bridgepoint loader, each part '
         'ending with a newline, right after its last `;`, with a `-- comment` that no newline ends, or with a bare `--`; '
         'API and clone construction; rejected inputs (duplicate class, a class declaring an attribute name twice, unknown class or key in an association or '
         'identifier, key lists of different length, named INSERT with unequal lengths). Non-trivial = some association has both a linked and an '
@@ -346,22 +346,38 @@ def _load(stmts, v, mine, cache=None):
             os.mkdir(cur)
             with open(os.path.join(cur, 'notes.txt'), 'w') as f:
                 f.write(decoy)
+            # TWO trees fed to the one loader, holding files of the same relative names (the same file name in two
+            # places is not the same input)
+            half = len(parts) // 2 if (route == 'bp-dir' and len(parts) >= 2 and pick % 3 == 0) else None
+            roots = [root]
             for n, p in enumerate(parts):
-                dot = '.' if (pick + n) % 4 == 1 else ''
-                with open(os.path.join(cur, '%sp%d.xtuml' % (dot, n)), 'w') as f:
+                if half is not None and n == half:
+                    os.mkdir(os.path.join(d, 'second'))
+                    cur = os.path.join(d, 'second', os.path.basename(root))
+                    os.mkdir(cur)
+                    roots.append(cur)
+                k = n - half if half is not None and n >= half else n
+                dot = '.' if (pick + k) % 4 == 1 else ''
+                with open(os.path.join(cur, '%sp%d.xtuml' % (dot, n if half is None else k)), 'w') as f:
                     f.write(_part_text(p, n, v))
                 if route == 'bp-dir':
                     # one file per directory level: os.walk visits a directory's files before its sub-directories
-                    cur = os.path.join(cur, _SUB_NAMES[(pick + n) % len(_SUB_NAMES)])
+                    cur = os.path.join(cur, _SUB_NAMES[(pick + k) % len(_SUB_NAMES)])
                     os.mkdir(cur)
-            l.filename_input(root)
+            for r_ in roots:
+                l.filename_input(r_)
         elif route == 'bp-zip':
-            fn = os.path.join(d, 'model.zip')
-            with zipfile.ZipFile(fn, 'w') as z:
-                z.writestr('readme.txt', decoy)
-                for n, p in enumerate(parts):
-                    z.writestr(('sub%d/' % n if n % 2 else '') + 'p%d.xtuml' % n, _part_text(p, n, v))
-            l.filename_input(fn)
+            # one archive — or TWO archives fed to the one loader whose members carry the same names
+            pick = sum(v['order'][:2]) + len(v['parts'])
+            half = len(parts) // 2 if (len(parts) >= 2 and pick % 2 == 0) else len(parts)
+            groups = [g for g in (list(enumerate(parts))[:half], list(enumerate(parts))[half:]) if g]
+            for gi, group in enumerate(groups):
+                fn = os.path.join(d, 'model%d.zip' % gi)
+                with zipfile.ZipFile(fn, 'w') as z:
+                    z.writestr('readme.txt', decoy)
+                    for k, (n, p) in enumerate(group):
+                        z.writestr(('models/pkg%d/' % k if k % 2 else 'models/') + 'p%d.xtuml' % k, _part_text(p, n, v))
+                l.filename_input(fn)
         else:
             raise ValueError(route)
         order = v['order']
